@@ -81,7 +81,7 @@ func (db *DB) Merge() error {
 		logRecordHeader: make([]byte, datafile.MaxLogRecordHeaderSize),
 	}
 	if err := mergeDB.setActiveFile(); err != nil {
-		return nil
+		return err
 	}
 
 	// 在 merge 临时目录创建并打开 hint 索引文件
@@ -109,10 +109,16 @@ func (db *DB) Merge() error {
 			pos := db.index.Get(logRecord.Key)
 			if pos != nil && pos.Fid == dataFile.ID &&
 				pos.Offset == logRecordPos.Offset && pos.BlockID == logRecordPos.BlockID {
+				// 重写为普通记录: 所属批次的完成标识不会被重写, 保留批次 ID 会导致重启后该记录被丢弃
+				logRecord.BatchID = 0
 				// 将数据重写到 merge 临时目录中
 				pos, err := mergeDB.appendLogRecord(logRecord)
 				if err != nil {
 					return err
+				}
+				// 重写后的文件 id 不得触及未参与 merge 的文件, 否则加载时会覆盖 merge 之后写入的数据
+				if mergeDB.activeFile.ID >= nonMergeFileId {
+					return ErrMergeOutputTooLarge
 				}
 				// merge的过程中顺便将构建索引所需信息写入 Hint 文件中, 用于后续重启时加速构建索引
 				if err := hintFile.WriteHintRecord(logRecord.Key, db.hintPos, pos); err != nil {
@@ -128,6 +134,12 @@ func (db *DB) Merge() error {
 	}
 	if mergeDB.activeFile != nil {
 		if err := mergeDB.activeFile.Close(); err != nil {
+			return err
+		}
+	}
+	// 重写过程中切换下来的文件同样需要关闭: 持久化, 且 mmap 文件需截断为真实大小
+	for _, file := range mergeDB.olderFiles {
+		if err := file.Close(); err != nil {
 			return err
 		}
 	}
